@@ -14,6 +14,13 @@ Sig(e) == SetOf(e.sigma)
 CallOK(e) == WEq(e.sr, AWeight(e.sr, e.M, e.s), e.res)
 TotalOK(e) == WEq(e.sr, ATotal(e.sr, e.M), e.res)
 
+(* threshold(t): initial weights, arcs and final weights whose absolute value is below t are dropped *)
+RAbs(w) == IF w[1] < 0 THEN RNeg(w) ELSE w
+KeepT(w, t) == ~RLt(RAbs(w), t)
+Thresholded(M, t) == [n |-> M.n, I |-> SelectSeq(M.I, LAMBDA r : KeepT(r[2], t)),
+                      F |-> SelectSeq(M.F, LAMBDA r : KeepT(r[2], t)),
+                      arcs |-> SelectSeq(M.arcs, LAMBDA r : KeepT(r[4], t))]
+
 (* language identity of an operation, on all strings up to L *)
 OpWeightsOK(e) ==
   \A s \in Strs(Sig(e), e.L) :
@@ -24,6 +31,8 @@ OpWeightsOK(e) ==
       [] e.fn = "star" -> have = StarW(e.sr, e.A, s)
       [] e.fn = "plus" -> have = PlusW(e.sr, e.A, s)
       [] e.fn = "reverse" -> have = AWeight(e.sr, e.A, Rev(s))
+      [] e.fn = "scale" -> have = Mul(e.sr, e.m, AWeight(e.sr, e.A, s))      \* multiplicity(m) = lift(eps, m) . A
+      [] e.fn = "threshold" -> have = AWeight(e.sr, Thresholded(e.A, e.t), s)
 
 PostA(sr, M, name) ==
   CASE name = "noeps" -> NoEpsArcs(M)
@@ -96,6 +105,8 @@ TSameOK(e) ==
            TWeight(e.sr, e.out, x, z) =
              TWeight(e.sr, [n |-> e.T.n, I |-> e.T.I, F |-> e.T.F,
                             arcs |-> SelectSeq(e.T.arcs, LAMBDA r : r[2] \in SetOf(e.keepA) /\ r[3] \in SetOf(e.keepB))], x, z)
+      [] e.fn = "coarsen" ->      \* merging states only adds paths: every related pair is related by the coarse machine
+           (TWeight(e.sr, e.T, x, z) # Zero(e.sr)) => TWeight("Bool", e.out, x, z) = 1
       [] e.fn = "project0" -> AWeight(e.sr, e.out, x) = AWeight(e.sr, Project(e.T, 0), x)
       [] e.fn = "project1" -> AWeight(e.sr, e.out, z) = AWeight(e.sr, Project(e.T, 1), z)
 
@@ -134,7 +145,8 @@ InDomainOut(e) ==
     [] e.op = "tobytes" -> AExact(e.sr, e.out)
     [] e.op = "gtobytes" -> InsideExact(e.sr, e.out)
     [] e.op = "tcompose" -> IsFinSR(e.sr) \/ TExact(e.sr, e.out)
-    [] e.op = "tsame" -> IsFinSR(e.sr) \/ (IF e.fn \in {"transpose", "diag", "pairs", "prune"} THEN TExact(e.sr, e.out)
+    [] e.op = "tsame" -> IsFinSR(e.sr) \/ e.fn = "coarsen"
+                         \/ (IF e.fn \in {"transpose", "diag", "pairs", "prune"} THEN TExact(e.sr, e.out)
                                             ELSE AExact(e.sr, e.out))
     [] e.op = "gcompose" -> InsideExact(e.sr, e.out)
     [] e.op = "truncate" -> InsideExact(e.sr, e.out)
@@ -147,7 +159,8 @@ Failed(e) ==
   ELSE
   CASE e.op = "wcall" -> IF CallOK(e) THEN {} ELSE {"pathsum"}
     [] e.op = "wtotal" -> IF TotalOK(e) THEN {} ELSE {"total"}
-    [] e.op = "wop" -> (IF OpWeightsOK(e) THEN {} ELSE {"language"}) \cup FailedPostsA(e)
+    [] e.op = "wop" -> (IF OpWeightsOK(e) THEN {} ELSE {IF e.fn = "threshold" THEN "threshold-conformance" ELSE "language"})
+                       \cup FailedPostsA(e)
     [] e.op = "wlang" -> IF LangOK(e) THEN {} ELSE {"language"}
     [] e.op = "tocfg" -> IF ToCfgOK(e) THEN {} ELSE {"tocfg"}
     [] e.op = "tobytes" -> IF ToBytesOK(e) THEN {} ELSE {"bytes"}
@@ -155,7 +168,7 @@ Failed(e) ==
     [] e.op = "tcall" -> IF TCallOK(e) THEN {} ELSE {"relation"}
     [] e.op = "tcompose" -> (IF TComposeOK(e) THEN {} ELSE {"compose"})
                             \cup (IF TComposeDefOK(e) THEN {} ELSE {"composedef"})
-    [] e.op = "tsame" -> IF TSameOK(e) THEN {} ELSE {"relation"}
+    [] e.op = "tsame" -> IF TSameOK(e) THEN {} ELSE {IF e.fn = "coarsen" THEN "coarsen-conformance" ELSE "relation"}
     [] e.op = "gcompose" -> (IF GComposeOK(e) THEN {} ELSE {"compose"})
                             \cup (IF GComposeDefOK(e) THEN {} ELSE {"composedef"})
     [] e.op = "gcall" -> IF GCallOK(e) THEN {} ELSE {"compose"}
